@@ -275,7 +275,22 @@ pub fn list_fixtures() -> Vec<String> {
 fn check(xc: &XCase, st: &mut Stats) -> CheckResult {
     let (exp, data) = load(&xc.fixture)?;
     let scratch = crate::props::fault::copy_db(&data, "c19").map_err(|e| Fail::Inconclusive(format!("copying the fixture: {e}")))?;
-    let dpath = scratch.path().to_path_buf();
+    // operators keep data directories under all sorts of names; the directory the old release
+    // wrote is found again under any of them
+    let dname = ["", "replica#1", "a?mode=ro", "sp ace", "p%41q", "d\u{e4}t\u{e4}", "", "x/y"][(hash_bytes(xc.fixture.as_bytes()) as usize + xc.continuation.len()) % 8];
+    let dpath = if dname.is_empty() {
+        scratch.path().to_path_buf()
+    } else {
+        let d = scratch.path().join(dname);
+        std::fs::create_dir_all(&d).map_err(|e| Fail::Inconclusive(format!("copying the fixture: {e}")))?;
+        for e in std::fs::read_dir(scratch.path()).map_err(|e| Fail::Inconclusive(format!("copying the fixture: {e}")))?.flatten() {
+            if e.path().is_file() {
+                std::fs::rename(e.path(), d.join(e.file_name())).map_err(|e| Fail::Inconclusive(format!("copying the fixture: {e}")))?;
+            }
+        }
+        st.label(&format!("c19:directory-name:{dname}"));
+        d
+    };
     let what = format!("fixture {} ({}, written by {})", xc.fixture, exp.variant, &exp.repo_commit[..exp.repo_commit.len().min(10)]);
     let cfg = case::Cfg::default();
     let mut drv = Driver::with_factory(Backend::Sqlite, xc.via, &cfg, None, sqlite_factory(dpath.clone()), Some(scratch)).map_err(|e| Fail::Violation(format!("{what}: the directory does not open with the current code: {e:#}")))?;
